@@ -7,6 +7,7 @@ import drv_computus
 import drv_leap
 import drv_angle
 import drv_heap
+import drv_epoch
 
 YMIN, YMAX = -4712, 6000
 
@@ -254,4 +255,48 @@ def plan_C03(tier, seed):
                      "radian inputs: exact degrees computed with a 50-digit pi (representational)"])
 
 
-PLANS = {"C03": plan_C03, "C04": plan_C04, "C10": plan_C10, "C01": plan_C01, "C16": plan_C16, "C19": plan_C19}
+def _nt_c02(ev):
+    k = ev["k"]
+    if k == "rt":
+        return (k, ev["xf"])
+    if k == "forms":
+        return (k, ev["y"], ev["m"], ev["d"], ev["h"], ev["mi"], ev["sf"])
+    if k == "arith":
+        return (k, ev["xf"], ev["of"])
+    if k == "cmp":
+        return (k, ev["x1f"], ev["x2f"], ev["num"])
+    if k == "step":
+        o = ev["o"]
+        return (k, o["t"], o["op"], o["dst"], o["l"], o["r"], o["k"], tuple(ev["sh"]))
+    return None
+
+
+def plan_C02(tier, seed):
+    T = ("Trace_Epoch", "Trace.cfg")
+    if tier == "quick":
+        nsh, nb, nr, nf, na, nc = 8, 250, 2500, 600, 3000, 1800
+    else:
+        nsh, nb, nr, nf, na, nc = 32, 1250, 31000, 6000, 40000, 1800
+    sh = [Shard("rt_%02d" % i, drv_epoch.gen_rt, dict(seed=seed, shard=i, nb=nb, nr=nr), *T) for i in range(nsh)]
+    sh += [Shard("forms_%02d" % i, drv_epoch.gen_forms, dict(seed=seed, shard=i, n=nf), *T) for i in range(max(2, nsh // 4))]
+    sh += [Shard("arith_%02d" % i, drv_epoch.gen_arith, dict(seed=seed, shard=i, n=na), *T) for i in range(max(2, nsh // 4))]
+    sh += [Shard("cmp_%02d" % i, drv_epoch.gen_cmp, dict(seed=seed, shard=i, n=nc), *T) for i in range(2)]
+    sh += _heap_shards("epoch", tier, seed, 2)
+    return dict(
+        mc=[MC("MC_ObjHeap", "MC_ObjHeap_epoch.cfg", workers=1, heap="3g", env={"HEAP_DEPTH": "2"},
+               note="Epoch heap: all operation sequences of depth 2 (frame laws)"),
+            MC("MC_Calendar", "MC_Calendar.cfg", workers=1, heap="2g", env={"CAL_Y0": "1570", "CAL_Y1": "1600"},
+               note="calendar chain around the reform (JDNOf closed forms used by Recompose)")],
+        shards=sh, level="model_checking", exhaustive=False, nontrivial=_nt_c02,
+        rule="Sorted JDE sweeps in [0, 5.4e6]: per shard nb boundaries (civil midnights, month/year/century starts, the 1582 "
+             "reform) x offsets {0, +-1us, +-1ms, +-1s, +-1min, +12h, +-1e-9, +-1,2 ulp} plus nr uniform random JDEs; each "
+             "instant goes Epoch(x) -> get_full_date -> Epoch(fields); TLC recomposes the fields on the calendar chain's day "
+             "number in exact fixed point (1e-8 day), checks canonical ranges and that the date tuple never decreases along "
+             "the sorted trace. Input forms: 13-15 documented ways of giving one instant must agree to 1e-9 day. Arithmetic: "
+             "offsets up to 1e6 days (ints, dyadics, random); comparisons on all ordered pairs of a 30-Epoch pool (Epoch and "
+             "number right-hand sides). Heap behaviours generated by TLC (depth 2 exhaustive + simulate) are replayed on real "
+             "Epoch objects. Distinct case = distinct JDE / date / (JDE, offset) / pair / operation record.",
+        assumptions=["== and != are checked on pairs that are identical or more than 1e-6 day apart (the class compares with a 1e-10 tolerance)"])
+
+
+PLANS = {"C02": plan_C02, "C03": plan_C03, "C04": plan_C04, "C10": plan_C10, "C01": plan_C01, "C16": plan_C16, "C19": plan_C19}
